@@ -6,6 +6,7 @@ Driver for C06: reads the cases the Go harness produced by running the REAL code
     receivers) → MISMATCH.
 -/
 import Kap.Spec.C06
+import Kap.Spec.C06Slot
 open Kap Kap.C06
 
 namespace Kap.C06.Drv
@@ -572,6 +573,104 @@ def judgeDmx (lines : Array String) : Verdict := Id.run do
   if recreated items [] then brs := addBr brs "recreate-after-delete"
   return .ok ((distinctKeys keys).length ≥ 2 && switches keys ≥ 2) brs
 
+/-! ### slot cases: httpOut's slot table behind a deleting barrier (real task, served result read through the route) -/
+
+def parseRow (tok : String) : Option Slot.Row :=
+  match tok.splitOn "=" with
+  | [g, v] => do pure ((← unesc g), (← v.toInt?))
+  | _ => none
+
+/-- a read: `-` = nothing served; `nil` entries (slot without a row) are kept apart -/
+def parseRead (toks : List String) : Option (List Slot.Row × Nat) :=
+  if toks == ["-"] then some ([], 0) else do
+    let rows ← (toks.filter (· != "nil")).mapM parseRow
+    pure (rows, (toks.filter (· == "nil")).length)
+
+def sortRows (rs : List Slot.Row) : List Slot.Row :=
+  (rs.toArray.qsort (fun a b => a.1 < b.1 || (a.1 == b.1 && a.2 < b.2))).toList
+
+def judgeSlot (lines : Array String) : Verdict := Id.run do
+  let mut hist : List Slot.Op := []
+  let mut st : Slot.St := Slot.St.empty
+  let mut reads : List (List Slot.Op × List Slot.Row × Nat) := []
+  let mut solo : List (String × List (List Slot.Row)) := []
+  let mut groups : List String := []
+  let mut brs : List String := ["slot"]
+  let mut shifted : List String := []   -- live groups whose slot number was decremented by a deletion
+  let mut strong := false
+  let mut ended := ""
+  for l in lines do
+    let (opT, o) := splitObs (tokens l)
+    match opT with
+    | ["slot", _] => pure ()
+    | ["status"] => if o != ["ok"] then ended := s!"task status {o}"
+    | ["sp", g, v] =>
+      let some g := unesc g | return .badop l
+      let some v := v.toInt? | return .badop l
+      if !o.isEmpty then
+        return (if o == ["panic"] then .specfail "isolation" s!"httpOut task status {o}" else .mismatch s!"httpOut task status {o}")
+      if !groups.contains g then groups := groups ++ [g]
+      match Slot.find st g with
+      | none => brs := addBr brs (if hist.any (· == .delete g) then "slot-recreate-after-delete" else "slot-create")
+      | some _ =>
+        brs := addBr brs "slot-update"
+        if shifted.contains g then
+          brs := addBr brs "slot-update-of-renumbered-group"; strong := true
+      hist := hist ++ [.point g v]
+      st := Slot.step st (.point g v)
+    | ["sd", g] =>
+      let some g := unesc g | return .badop l
+      match o with
+      | ["deleted"] =>
+        match Slot.find st g with
+        | none => return .mismatch s!"httpOut: group {g} deleted, the model has no such live group"
+        | some i =>
+          let n := st.recv.length
+          brs := addBr brs (if i + 1 == n then "slot-delete-newest" else if i == 0 then "slot-delete-first" else "slot-delete-middle")
+          if n ≥ 3 then brs := addBr brs "slot-delete-among-3+"
+          shifted := (shifted.filter (· != g)) ++ ((st.recv.drop (i + 1)).map (·.1))
+        hist := hist ++ [.delete g]
+        st := Slot.step st (.delete g)
+      | ["absent"] => brs := addBr brs "slot-delete-absent"
+      | ["dead"] => ended := "the node had stopped before the deletion of " ++ g
+      | ["panic"] => return .specfail "isolation" s!"httpOut task status {o}"
+      | _ => return .mismatch s!"httpOut: deletion of idle group {g}: {o}"
+    | ["sr"] =>
+      match parseRead o with
+      | some (rows, nils) => reads := reads ++ [(hist, rows, nils)]
+      | none => return (if o == ["panic"] then .specfail "isolation" s!"httpOut task status {o}" else .mismatch s!"httpOut read {o}")
+    | ["solo", g] =>
+      let some g := unesc g | return .badop l
+      let rs := o.map (fun t => if t == "-" then some [] else ((t.splitOn ",").filter (· != "nil")).mapM parseRow)
+      if rs.any (·.isNone) then
+        return (if o == ["panic"] then .specfail "isolation" s!"httpOut solo run of {g} status {o}" else .mismatch s!"httpOut solo run of {g}: {o}")
+      solo := solo ++ [(g, rs.filterMap id)]
+    | _ => return .badop l
+  if solo.map (·.1) != groups then return .badop "solo groups are not the groups of the input"
+  -- SPEC (isolation, in the property's own terms): at every read, the rows served under g's tags on the full history
+  -- are the rows served by the run fed g's operations alone
+  for (g, rs) in solo do
+    if rs.length != reads.length then return .badop s!"solo run of {g}: {rs.length} reads, full run {reads.length}"
+    for ((_, full, _), k) in reads.zipIdx do
+      let own := rs.getD k []
+      if !Slot.isolatedObs g full own then
+        return .specfail "isolation" s!"httpOut read {k}: rows served for group {g} on the full history {full.filter (·.1 == g)} differ from the rows served when {g} is fed alone {own.filter (·.1 == g)} (full result {full})"
+  -- a task that did not end well although no group's served rows depended on another group: not the model's behaviour
+  if ended != "" then return .mismatch s!"httpOut: {ended}"
+  -- MODEL: the served rows are those of the transcribed slot table (compared per content; slot order of the model
+  -- is reported when the content agrees and the order does not: a survivor that idled out under load is re-created
+  -- at the end, so order alone is no verdict)
+  for ((h, full, nils), k) in reads.zipIdx do
+    let m := Slot.served (Slot.run h)
+    if sortRows m != sortRows full then return .mismatch s!"httpOut read {k}: model {m} observed {full}"
+    if nils != 0 then return .mismatch s!"httpOut read {k}: {nils} slots without a row"
+    if m == full then brs := addBr brs "slot-order-as-model"
+  for (g, rs) in solo do
+    for ((h, _, _), k) in reads.zipIdx do
+      if rs.getD k [] != Slot.expectFor g h then
+        return .mismatch s!"httpOut solo run of {g} read {k}: model {Slot.expectFor g h} observed {rs.getD k []}"
+  return .ok (groups.length ≥ 3 && strong && !reads.isEmpty) brs
+
 def judge (_id : String) (lines : Array String) : Verdict :=
   if lines.isEmpty then .badop "empty case" else
   let first := (tokens lines[0]!).headD ""
@@ -579,6 +678,7 @@ def judge (_id : String) (lines : Array String) : Verdict :=
   else if first == "gb" then judgeGb lines
   else if first == "node" then judgeIso lines
   else if first == "dmx" then judgeDmx lines
+  else if first == "slot" then judgeSlot lines
   else .badop s!"unknown case kind {first}"
 
 end Kap.C06.Drv
